@@ -80,8 +80,16 @@ def check(chk):
             lo = it.slice.lower
             return it.slice.upper is None and it.slice.step is None and (lo is None or (isinstance(lo, ast.Constant) and lo.value in (0, 1)))
         return isinstance(it, ast.Attribute)
+    def _applied_after(lp):
+        # the loop leaves with `break` once a base's encoder was found and stored in a local; that local is applied to val after the loop
+        if not any(isinstance(x, ast.Break) for x in ast.walk(lp)):
+            return False
+        found = set(t.id for x in ast.walk(lp) if isinstance(x, ast.Assign) for t in x.targets if isinstance(t, ast.Name))
+        return any(isinstance(r, ast.Return) and isinstance(r.value, ast.Call) and isinstance(r.value.func, ast.Name) and r.value.func.id in found
+                   and [src(a_) for a_ in r.value.args] == ['val'] and r.lineno > lp.lineno for r in body_walk(ceo))
     mro_walk = [lp for lp in body_walk(ceo) if isinstance(lp, ast.For) and '__mro__' in src(lp.iter) and _whole_mro(lp.iter) and
-                any(isinstance(x, ast.Call) and src(x.func) == 'self.mapping.get' for x in ast.walk(lp)) and any(isinstance(x, ast.Return) for x in ast.walk(lp))]
+                any(isinstance(x, ast.Call) and src(x.func) == 'self.mapping.get' for x in ast.walk(lp)) and
+                (any(isinstance(x, ast.Return) for x in ast.walk(lp)) or _applied_after(lp))]
     aware = aware or bool(mro_walk)
     if len(sites) < 6:
         raise AnalysisError('type-dispatch sites not found (%d)' % len(sites))
